@@ -165,7 +165,9 @@ def verify_function(world, reg, c, prop, timeout_ms=20000, mutate=None):
     if res.covers == 0:
       res.status, res.error = 'vacuous', 'no path reaches an exit: requires are contradictory'
     elif any('DEAD' in p.notes for p in paths):
-      res.status, res.error = 'vacuous', 'some path became infeasible by an assumption (contradictory contract/invariant/hook)'
+      res.status = 'vacuous'
+      res.error = 'some path became infeasible by an assumption (contradictory contract/invariant/hook): ' + '; '.join(
+          sorted({str(n) for p in paths for n in p.notes if str(n).startswith('dead-after')}))[:600]
     for o in obls:
       discharge(o, timeout_ms)
       if o.result == 'sat' and o.model is not None:
@@ -220,7 +222,7 @@ def frame_check(it, c, env, old, name):
         lv = live.f.get(fname)
         if lv is None:
           continue
-        if isinstance(wv, (VObj, VMList, VMap, VIter)) or (isinstance(wv, VOpt) and isinstance(wv.val, (VObj, VMList, VMap, VIter))):
+        if isinstance(wv, (VObj, VMList, VMap, VIter, VQueue)) or (isinstance(wv, VOpt) and isinstance(wv.val, (VObj, VMList, VMap, VIter))):
           walk(lv, wv, fp)
         elif isinstance(wv, VLock):
           gk = f'{wv.name}.free'
@@ -235,6 +237,9 @@ def frame_check(it, c, env, old, name):
           except Unsupported:
             continue
           it.oblige(f'{name}/frame[{fp}]', same, 'frame', {'text': f'{fp} unchanged (not listed in modifies)'})
+    elif isinstance(was, VQueue) and isinstance(live, VQueue):
+      if not listed(p):
+        it.oblige(f'{name}/frame[{p}]', it.eq(live.q.seq, was.q.seq), 'frame', {'text': f'{p} content unchanged'})
     elif isinstance(was, VMList) and isinstance(live, VMList):
       if not listed(p):
         it.oblige(f'{name}/frame[{p}]', it.eq(live.seq, was.seq), 'frame', {'text': f'{p} unchanged'})
